@@ -199,7 +199,7 @@ func (g *Gen) mergeInto(b *ssa.BasicBlock) *State {
 			allLocals[a] = true
 		}
 	}
-	for a := range allLocals {
+	for _, a := range g.sortedAllocs(allLocals) {
 		et := a.Type().(*types.Pointer).Elem()
 		s := g.sortOf(et)
 		t, ok := mergeTerm(func(s *State) (string, bool) { v, ok := s.locals[a]; return v.T, ok }, s.SMT(), func() string { return g.zero(et).T })
@@ -226,7 +226,8 @@ func (g *Gen) mergeInto(b *ssa.BasicBlock) *State {
 			allG[k] = v
 		}
 	}
-	for k, v0 := range allG {
+	for _, k := range sortedKeys(allG) {
+		v0 := allG[k]
 		t, _ := mergeTerm(func(s *State) (string, bool) { v, ok := s.ghosts[k]; return v.T, ok }, v0.S.SMT(), func() string { return v0.T })
 		n.ghosts[k] = Val{T: t, S: v0.S, G: v0.G}
 	}
@@ -243,7 +244,8 @@ func (g *Gen) mergeInto(b *ssa.BasicBlock) *State {
 		}
 	}
 	for _, i := range ins {
-		for k, v := range i.st.pend {
+		for _, k := range sortedKeys(i.st.pend) {
+			v := i.st.pend[k]
 			if old, ok := n.pend[k]; ok && old != v {
 				g.ctr++
 				v = g.ctr
@@ -251,7 +253,7 @@ func (g *Gen) mergeInto(b *ssa.BasicBlock) *State {
 			n.pend[k] = v
 		}
 	}
-	for k := range n.pend {
+	for _, k := range sortedKeys(n.pend) {
 		for _, i := range ins {
 			if _, ok := i.st.pend[k]; !ok {
 				g.ctr++
@@ -304,10 +306,12 @@ func (g *Gen) classifyAllocs() {
 		}
 		return true
 	}
+	g.allocOrder = map[*ssa.Alloc]int{}
 	for _, b := range g.fn.Blocks {
 		for _, in := range b.Instrs {
 			if a, ok := in.(*ssa.Alloc); ok {
 				g.isLocal[a] = addrOnly(a)
+				g.allocOrder[a] = len(g.allocOrder)
 			}
 		}
 	}
@@ -339,7 +343,7 @@ func (g *Gen) enterLoop(li *loopInfo, in *State) *State {
 	// 2. havoc everything the loop may write
 	st := in.clone()
 	locals, allHeap, _ := g.loopWrites(li)
-	for a := range locals {
+	for _, a := range g.sortedAllocs(locals) {
 		et := a.Type().(*types.Pointer).Elem()
 		st.locals[a] = g.freshVal("lv_"+mangle(a.Comment), et, in, in.reach)
 	}
@@ -349,7 +353,8 @@ func (g *Gen) enterLoop(li *loopInfo, in *State) *State {
 		// stores through pointers: havoc the maps of the stored types
 		g.havocHeap(st, g.loopAssignable(li))
 	}
-	for k, v := range st.ghosts {
+	for _, k := range sortedKeys(st.ghosts) {
+		v := st.ghosts[k]
 		if g.ghostWrittenIn(li, k) {
 			n := g.fresh("gh_" + k)
 			g.declare(n, v.S.SMT())
@@ -594,7 +599,7 @@ func (g *Gen) havocHeapG(st *State, names map[string]bool, ghosts bool) {
 		g.ctr++
 		st.gen = g.ctr
 		if ghosts {
-			for name := range g.W.globalGhosts {
+			for _, name := range sortedKeys(g.W.globalGhosts) {
 				if _, ok := g.heapSorts["GG_"+name]; !ok {
 					st.pend["GG_"+name] = g.ctr
 				}
@@ -1551,4 +1556,13 @@ func (g *Gen) isEntryRead(a *Addr, st *State) bool {
 	name, _, _ := g.fieldMapName(a.typ, a.path[0].field)
 	cur, ok := st.heap[name]
 	return !ok && st.gen == 0 || cur == "H0_"+name
+}
+
+func (g *Gen) sortedAllocs(m map[*ssa.Alloc]bool) []*ssa.Alloc {
+	var out []*ssa.Alloc
+	for a := range m {
+		out = append(out, a)
+	}
+	sort.Slice(out, func(i, j int) bool { return g.allocOrder[out[i]] < g.allocOrder[out[j]] })
+	return out
 }
